@@ -78,3 +78,49 @@ func HarnessCacheTrouble() {
 		vAssert(string(c.body) == "OK" || string(c.body) == "NEW", "c09."+name+".body-of-no-version")
 	}
 }
+
+// HarnessCacheTroubleAnywhere: while a request for a fresh, stale (origin: 304) or unknown
+// resource is being handled, another request's cache operation (delete / replacement /
+// eviction) runs at ANY lock or file-system boundary of the handling.  The origin answers
+// every request successfully, so the client must get a 200 with a complete body.
+func HarnessCacheTroubleAnywhere() {
+	backend := symChoice(2)
+	e := newEnv(backend, 1<<30)
+	h := hdr("Cache-Control", "max-age=5", "Etag", "\"a\"")
+	pre := symChoice(3) // 0 unknown resource, 1 fresh entry, 2 stale entry (revalidated with 304)
+	e.o.script = []originResp{{status: 200, header: h, body: []byte("OK")}, {status: 304, header: hdr()}, {status: 200, header: h, body: []byte("OK")}}
+	req1 := newReq("GET", "o.test", "/w", "", nil)
+	key := cache.MakeFromRequest(req1)
+	now := time.Now()
+	if pre > 0 {
+		e.plain(req1)
+		m, _, err := e.p.cache.GetMetadata(key)
+		if err != nil {
+			return
+		}
+		now = time.Now()
+		if pre == 2 {
+			vAssume(now.After(m.Expires))
+		} else {
+			vAssume(now.Before(m.Expires))
+			e.o.script = []originResp{{status: 200, header: h, body: []byte("OK")}, {status: 200, header: h, body: []byte("OK")}}
+		}
+	}
+	vReach([]string{"unknown-resource", "fresh-entry", "stale-entry"}[pre])
+	kind := symChoice(2)
+	vClockFreeze(true)
+	vInterpose(func() {
+		if kind == 0 {
+			e.p.cache.Delete(key)
+		} else {
+			e.p.cache.Cache(key, &bodyReader{data: []byte("NEW"), failAt: -1}, now.Add(time.Hour), cachedRequestInfo{ETag: "\"n\"", Header: hdr()})
+		}
+	}, 1)
+	c := e.plain(newReq("GET", "o.test", "/w", "", nil))
+	vInterpose(nil, 0)
+	if vInterposed() > 0 {
+		vReach("other-request-interfered")
+	}
+	vAssert(c.answered && c.status == 200, "c09.interference.good-answer-became-error")
+	vAssert(string(c.body) == "OK" || string(c.body) == "NEW", "c09.interference.body-of-no-version")
+}
